@@ -1,6 +1,7 @@
 //! The simulated worlds. Each links the real rsdd code.
 pub mod bdd;
 pub mod bddbig;
+pub mod bddmid;
 pub mod cnf;
 pub mod ffi;
 pub mod lru;
@@ -22,9 +23,10 @@ static QUERY: query::QueryWorld = query::QueryWorld;
 static SEMHASH: semhash::SemHashWorld = semhash::SemHashWorld;
 static FFI: ffi::FfiWorld = ffi::FfiWorld;
 static BDDBIG: bddbig::BddBigWorld = bddbig::BddBigWorld;
+static BDDMID: bddmid::BddMidWorld = bddmid::BddMidWorld;
 
 pub fn all() -> Vec<&'static dyn World> {
-    vec![&TABLE, &LRU, &BDD, &SAT, &CNF, &SDD, &QUERY, &SEMHASH, &FFI, &BDDBIG]
+    vec![&TABLE, &LRU, &BDD, &SAT, &CNF, &SDD, &QUERY, &SEMHASH, &FFI, &BDDBIG, &BDDMID]
 }
 
 pub fn lookup(name: &str) -> Option<&'static dyn World> {
